@@ -595,6 +595,40 @@ func (e *Env) call(ce *CE) (CVal, error) {
 	S := types.Typ[types.String]
 	I := types.Typ[types.Int]
 	switch name {
+	case "elemAddr":
+		// elemAddr(s, i): the address of element i of slice s (what &s[i] evaluates to in the code)
+		sv, err := e.eval(args[0])
+		if err != nil {
+			return CVal{}, err
+		}
+		iv, err := e.eval(args[1])
+		if err != nil {
+			return CVal{}, err
+		}
+		if sv.T == nil || sv.T.Sort != SSlice || iv.T == nil {
+			return CVal{}, fmt.Errorf("elemAddr needs a slice and an index")
+		}
+		return CVal{T: App("elemaddr", SInt, SBase(sv.T), Add(SOff(sv.T), iv.T))}, nil
+	case "ufRef":
+		// ufRef("(*pkg.T).M", f, args...): like ufString for a pointer / map / channel result
+		if len(args) < 2 || args[0].Kind != "str" {
+			return CVal{}, fmt.Errorf("ufRef needs a literal callee name and the callee value")
+		}
+		var ts []*Term
+		for _, a := range args[1:] {
+			v, err := e.eval(a)
+			if err != nil {
+				return CVal{}, err
+			}
+			if v.IsNil {
+				v.T = IntLit(0)
+			}
+			if v.T == nil {
+				return CVal{}, fmt.Errorf("bad ufRef argument %s", a)
+			}
+			ts = append(ts, v.T)
+		}
+		return CVal{T: App("uf:"+sanitize(args[0].Str)+"#0", SInt, ts...)}, nil
 	case "ufString":
 		// ufString("field:mapper", f, args...): the string result of a call on the effects list as `function`, as a term
 		if len(args) < 2 || args[0].Kind != "str" {
